@@ -516,6 +516,12 @@ def r5_normalisation(ctx):
         return isinstance(e, ast.Compare) and len(e.ops) == 1 and isinstance(e.ops[0], ast.Eq) and _is_call_to(e.left, 'basename') and const_str(e.comparators[0]) == fname
 
     stores = [(n, n.ast.value) for n in g.nodes if n.kind == 'stmt' and not n.dup and isinstance(n.ast, ast.Assign) and is_name(n.ast.targets[0], path)]
+    # the new value held in a local first (`pkg_dpath = dirname(modpath)` ... `modpath = pkg_dpath`)
+    for i_, (n_, v_) in enumerate(stores):
+        if isinstance(v_, ast.Name):
+            ds_ = rd.at(n_, v_.id)
+            if len(ds_) == 1 and ds_[0].kind == 'assign' and isinstance(ds_[0].value, ast.AST) and _is_call_to(ds_[0].value, 'dirname'):
+                stores[i_] = (n_, ds_[0].value)
     # a rewritten path may also be returned directly (early return) instead of being stored back first
     for n in g.nodes:
         if n.kind == 'stmt' and not n.dup and isinstance(n.ast, ast.Return) and n.ast.value is not None and not is_name(n.ast.value, path):
